@@ -138,6 +138,19 @@ func applyGenesisPerturbation(c *genesis.GenesisConfig, cell genCell) bool {
 		c.PlasmaConfig.Fusions[0].Amount.Add(c.PlasmaConfig.Fusions[0].Amount, one)
 	case "fusion-removed":
 		c.PlasmaConfig.Fusions = c.PlasmaConfig.Fusions[1:]
+	case "undeclared-token-given", "third-token-declared-and-given", "third-token-declared-nobody-holds-it", "third-token-declared-with-zero-supply":
+		third := types.NewZenonTokenStandard(types.NewHash([]byte("lab-third-token")).Bytes())
+		if cell.K == "undeclared-token-given" || cell.K == "third-token-declared-and-given" {
+			blocks[bi].BalanceList[third] = big.NewInt(1)
+		}
+		if cell.K != "undeclared-token-given" {
+			total := int64(1)
+			if cell.K == "third-token-declared-with-zero-supply" {
+				total = 0
+			}
+			c.TokenConfig.Tokens = append(c.TokenConfig.Tokens, &definition.TokenInfo{Owner: blocks[genBlockIndex(c, 1)].Address, TokenName: "third", TokenSymbol: "THIRD", TokenDomain: "",
+				TotalSupply: big.NewInt(total), MaxSupply: big.NewInt(1), Decimals: 0, IsMintable: true, IsBurnable: true, IsUtility: false, TokenStandard: third})
+		}
 	case "swap-funded", "swap-funded-supply-raised":
 		c.GenesisBlocks.Blocks = append(blocks, &genesis.GenesisBlockConfig{Address: types.SwapContract, BalanceList: map[types.ZenonTokenStandard]*big.Int{znn: big.NewInt(1)}})
 		if cell.K == "swap-funded-supply-raised" {
@@ -278,6 +291,24 @@ func C20(run *core.Run) {
 		}
 		err := genesis.CheckGenesis(c)
 		got := err == nil
+		// the verdict is a function of the configuration: the same cell evaluated again (fresh copy, lists permuted) gets the same one
+		pr := rand.New(rand.NewSource(run.Seed + int64(len(seen))))
+		for k := 0; k < 12; k++ {
+			c2 := cloneGenesis(base)
+			applyGenesisPerturbation(c2, cell)
+			if k%2 == 1 {
+				permuteGenesis(c2, pr)
+			}
+			if err2 := genesis.CheckGenesis(c2); (err2 == nil) != got {
+				run.Report(fmt.Sprintf("C20:perturbation-%s-verdict-varies", cell.K),
+					fmt.Sprintf("configuration perturbed by %s (abstract block %d): CheckGenesis says accepted=%v (%v) on one evaluation and accepted=%v (%v) on another of the same configuration", cell.K, cell.I, got, err, err2 == nil, err2),
+					map[string]interface{}{"kind": "genesis-perturbation", "cell": cell})
+				if err2 == nil {
+					got, err = true, nil // an acceptance counts
+				}
+				break
+			}
+		}
 		verdicts[key] = fmt.Sprintf("accepted=%v", got)
 		if got != cell.Accepted {
 			run.Report(fmt.Sprintf("C20:perturbation-%s-accepted-%v", cell.K, got),
